@@ -111,7 +111,16 @@ func judge(tr *replay.Trace, cfg gen.OutCfg) []failure {
 				// known root cause: the stored position does not record that the source was inside a blacklisted db. On the unchanged tree the
 				// position can only get INTO such a stretch behind a transaction bracket (brackets are forwarded from blacklisted dbs since
 				// e480ad0); a position behind anything else (a keep-alive PING, a filtered command) is another defect
-				if nm := nameEndingAt(m, run.FeedFrom); nm != "multi" && nm != "exec" {
+				// ... unless an EARLIER run of this history had already resumed inside the same stretch: that run no longer knew that the
+				// source's db is blacklisted (the open finding), treated the rest of the stretch as ordinary traffic and stored positions
+				// anywhere in it (thorough tier, chain of two restarts, 1 case in 2172)
+				earlier := false
+				for j := 1; j < k; j++ {
+					if f := tr.Runs[j].FeedFrom; srcDBBlacklistedAt(m, cfg, f) && stretchOf(m, f) == stretchOf(m, run.FeedFrom) {
+						earlier = true
+					}
+				}
+				if nm := nameEndingAt(m, run.FeedFrom); !earlier && nm != "multi" && nm != "exec" {
 					fs = append(fs, failure{"position-advanced-inside-blacklisted-db:" + nm, fmt.Sprintf("run %d resumes at offset %d, the end of a %q that the source sent while its current db was blacklisted: nothing of such a stretch but transaction brackets may move the stored position; the restarted tool executed %s although the reference expects %s next", k, run.FeedFrom, nm, showD(g), showE(e))})
 					return fs
 				}
@@ -161,6 +170,17 @@ func judge(tr *replay.Trace, cfg gen.OutCfg) []failure {
 }
 
 // srcDBBlacklistedAt: is the source database in effect at offset off (per the reference model) a blacklisted one?
+// stretchOf: index of the last SELECT at or before the offset (identifies the stretch of the stream that runs in one source db)
+func stretchOf(m *gen.Model, off int64) int {
+	st := -1
+	for i, e := range m.Ends {
+		if e <= off && i < len(m.Names) && m.Names[i] == "select" {
+			st = i
+		}
+	}
+	return st
+}
+
 func nameEndingAt(m *gen.Model, off int64) string {
 	for i, e := range m.Ends {
 		if e == off && i < len(m.Names) {
